@@ -111,19 +111,21 @@ func init() {
 			s.assume(And(Ge(strLen(r), IntLit(0)), Implies(Ge(n, IntLit(2)), Ge(strLen(r), strLen(args[1])))))
 			return []*Term{r}
 		},
-		"os/exec.CommandContext": nonNilResult(1, "exec.CommandContext returns a non-nil *Cmd"),
-		"os/exec.Command":        nonNilResult(1, "exec.Command returns a non-nil *Cmd"),
-		"context.Background":     nonNilResult(1, "context.Background returns a non-nil context"),
-		"context.WithTimeout":    nonNilResult(2, "context.WithTimeout returns a non-nil context and a non-nil cancel function"),
-		"bytes.NewReader":        nonNilResult(1, "bytes.NewReader returns a non-nil reader"),
-		"bytes.NewBuffer":        nonNilResult(1, "bytes.NewBuffer returns a non-nil buffer"),
-		"log.Printf":             opaqueNoEffect("log.Printf/Println/Print: write to the log output; no effect on program state"),
-		"log.Println":            opaqueNoEffect("log.Printf/Println/Print: write to the log output; no effect on program state"),
-		"log.Print":              opaqueNoEffect("log.Printf/Println/Print: write to the log output; no effect on program state"),
-		"bytes.Buffer.String":    opaqueNoEffect("(*bytes.Buffer).String: no effect on program state; result unconstrained"),
-		"bytes.Buffer.Bytes":     opaqueNoEffect("(*bytes.Buffer).Bytes: no effect on program state; result unconstrained"),
-		"bytes.Buffer.Len":       opaqueNoEffect("(*bytes.Buffer).Len: no effect on program state; result unconstrained"),
-		"os/exec.Cmd.Run":        opaqueNoEffect("(*exec.Cmd).Run: runs the external process; writes only the Stdout/Stderr writers it was given (library buffers); returns an error or nil"),
+		"os/exec.CommandContext":   nonNilResult(1, "exec.CommandContext returns a non-nil *Cmd"),
+		"os/exec.Command":          nonNilResult(1, "exec.Command returns a non-nil *Cmd"),
+		"context.Background":       nonNilResult(1, "context.Background returns a non-nil context"),
+		"context.WithTimeout":      nonNilResult(2, "context.WithTimeout returns a non-nil context and a non-nil cancel function"),
+		"bytes.NewReader":          nonNilResult(1, "bytes.NewReader returns a non-nil reader"),
+		"bytes.NewBuffer":          nonNilResult(1, "bytes.NewBuffer returns a non-nil buffer"),
+		"strings.NewReplacer":      nonNilResult(1, "strings.NewReplacer returns a replacer; no effect on program state"),
+		"strings.Replacer.Replace": opaqueNoEffect("(*strings.Replacer).Replace: no effect on program state; result unconstrained"),
+		"log.Printf":               opaqueNoEffect("log.Printf/Println/Print: write to the log output; no effect on program state"),
+		"log.Println":              opaqueNoEffect("log.Printf/Println/Print: write to the log output; no effect on program state"),
+		"log.Print":                opaqueNoEffect("log.Printf/Println/Print: write to the log output; no effect on program state"),
+		"bytes.Buffer.String":      opaqueNoEffect("(*bytes.Buffer).String: no effect on program state; result unconstrained"),
+		"bytes.Buffer.Bytes":       opaqueNoEffect("(*bytes.Buffer).Bytes: no effect on program state; result unconstrained"),
+		"bytes.Buffer.Len":         opaqueNoEffect("(*bytes.Buffer).Len: no effect on program state; result unconstrained"),
+		"os/exec.Cmd.Run":          opaqueNoEffect("(*exec.Cmd).Run: runs the external process; writes only the Stdout/Stderr writers it was given (library buffers); returns an error or nil"),
 		"bytes.HasSuffix": func(vc *VC, s *State, call *ast.CallExpr, args []*Term) []*Term {
 			vc.prog.Assumed["bytes.HasSuffix(a, b): len(a) >= len(b) and the last len(b) bytes of a equal b"] = true
 			a, b := args[0], args[1]
